@@ -773,3 +773,19 @@ K('C18', 'oracle-constructor-unknown-keyword', [(LI, "            model = Factor
 K('C09', 'lsmr-from-a-uniform-start', [(MI, "        v = lsmr(Q.T, o, atol=0, btol=0)[0]\n", "        v = lsmr(Q.T, o, atol=0, btol=0, x0=np.full(Q.shape[0], 1.0/Q.shape[0]))[0]\n")], 'variance-form')
 T('C09', 'lsmr-from-zero-spelled-out', [(MI, "        v = lsmr(Q.T, o, atol=0, btol=0)[0]\n", "        v = lsmr(Q.T, o, atol=0, btol=0, x0=np.zeros(Q.shape[0]))[0]\n")])
 
+# ------------------------------------------------------------------ round 12: the rules added for its pairs
+K('C15', 'sort-by-name-as-text', [(DOM, "            attrs = sorted(self.attrs)\n", "            attrs = sorted(self.attrs, key=str)\n")], 'sort-stable')
+T('C15', 'sort-by-name-strings-after-numbers', [(DOM, "            attrs = sorted(self.attrs)\n", "            attrs = sorted(self.attrs, key=lambda a: (isinstance(a, str), a))\n")])
+K('C13', 'iteration-range-cached-per-object', [(INF, "    def fix_measurements(self, measurements):\n",
+                                                 "    @functools.cached_property\n    def steps(self):\n        return range(1, self.iters + 1)\n\n    def fix_measurements(self, measurements):\n")], 'A3-config-read-only')
+T('C13', 'iteration-range-as-a-property', [(INF, "    def fix_measurements(self, measurements):\n",
+                                             "    @property\n    def steps(self):\n        return range(1, self.iters + 1)\n\n    def fix_measurements(self, measurements):\n")])
+K('C18', 'ancestors-read-off-the-forward-closure', [(RG, "        self.ancestors = { r : list(H1.neighbors(r)) for r in regions }\n", "        self.ancestors = { r : list(G1.neighbors(r)) for r in regions }\n")], 'region-structure')
+T('C18', 'ancestors-asked-of-networkx', [(RG, "        self.ancestors = { r : list(H1.neighbors(r)) for r in regions }\n", "        self.ancestors = { r : list(nx.ancestors(G, r)) for r in regions }\n")])
+K('C16', 'intersection-region-in-operand-order', [(RG, "                z = tuple(sorted(set(r1) & set(r2)))\n", "                z = tuple(a for a in r1 if a in r2)\n")], 'region-structure')
+T('C16', 'intersection-region-sorted-filter', [(RG, "                z = tuple(sorted(set(r1) & set(r2)))\n", "                z = tuple(a for a in sorted(r1) if a in r2)\n")])
+K('C14', 'condition-falsy-evidence', [(F, "        slices = [evidence[a] if a in evidence else slice(None) for a in self.domain]\n",
+                                         "        slices = [evidence.get(a) or slice(None) for a in self.domain]\n")], 'index-by-name')
+T('C14', 'condition-through-dict-get', [(F, "        slices = [evidence[a] if a in evidence else slice(None) for a in self.domain]\n",
+                                           "        slices = [evidence.get(a, slice(None)) for a in self.domain]\n")])
+
